@@ -143,6 +143,11 @@ let run_trie_file (inp : in_channel) (out : out_channel) =
           | Ok t ->
             let qb = bytes_of_hex q in
             let g = (match getid t qb with None -> -1 | Some i -> int_of_nat i) in
+            (* GetID as the id loop of the Go code (Flat.fgetid) must agree with the tree recursion *)
+            let g = (match fgetid t qb with
+                | Ok None -> if g = -1 then g else -777
+                | Ok (Some i) -> if int_of_nat i = g then g else -777
+                | Err _ -> -778) in
             let gv = found_str (get t qb) in
             let rv = found_str (rangeget t qb) in
             let sv = (match search t qb with
